@@ -1,7 +1,7 @@
 (* Stream/ProofsProto.v — C16: the protobuf layer (Stream/Proto.v): varint and field round trips,
    Size() = length of MarshalTo(), Unmarshal(Marshal(x)) = x for every wire type. *)
 From Coq Require Import ZifyN ZifyNat ZifyBool.
-From ZV Require Import Common.Bytes Stream.Proto.
+From ZV Require Import Common.Bytes Stream.Consts Stream.Proto.
 Open Scope N_scope.
 
 Arguments N.mul : simpl never.
@@ -204,6 +204,18 @@ Ltac tag_reduce :=
       end
   end.
 
+(* the dispatch on the (now literal) field number: decide the closed comparisons with the generated constants *)
+Ltac eqb_reduce :=
+  repeat match goal with
+         | |- context [N.eqb ?a ?b] =>
+             let v := eval vm_compute in (N.eqb a b) in
+             match v with
+             | true => change (N.eqb a b) with true
+             | false => change (N.eqb a b) with false
+             end
+         end;
+  cbv iota.
+
 Lemma vfield_ne t v : vfield t v <> [].
 Proof. discriminate. Qed.
 Lemma bfield_ne t d : bfield t d <> [].
@@ -214,24 +226,24 @@ Proof. discriminate. Qed.
 (* ---------- Entry ---------- *)
 Section EntrySteps.
 Variables (l : N) (e : entry) (rest : bytes).
-Lemma entry_step_1 v : v < two64 -> entry_step l e (vfield 8 v ++ rest) = Ok (set_e_type (low32 v) e, rest).
-Proof. intro. unfold entry_step, vfield. cbn [app]. tag_reduce. cbn [bind]. rewrite vread_ok by assumption. reflexivity. Qed.
-Lemma entry_step_2 v : v < two64 -> entry_step l e (vfield 16 v ++ rest) = Ok (set_e_term v e, rest).
-Proof. intro. unfold entry_step, vfield. cbn [app]. tag_reduce. cbn [bind]. rewrite vread_ok by assumption. reflexivity. Qed.
-Lemma entry_step_3 v : v < two64 -> entry_step l e (vfield 24 v ++ rest) = Ok (set_e_index v e, rest).
-Proof. intro. unfold entry_step, vfield. cbn [app]. tag_reduce. cbn [bind]. rewrite vread_ok by assumption. reflexivity. Qed.
+Lemma entry_step_1 v : v < two64 -> entry_step l e (vfield tg_Entry_Type v ++ rest) = Ok (set_e_type (low32 v) e, rest).
+Proof. intro. unfold entry_step, vfield. cbn [app]. tag_reduce. cbn [bind]. eqb_reduce. rewrite vread_ok by assumption. reflexivity. Qed.
+Lemma entry_step_2 v : v < two64 -> entry_step l e (vfield tg_Entry_Term v ++ rest) = Ok (set_e_term v e, rest).
+Proof. intro. unfold entry_step, vfield. cbn [app]. tag_reduce. cbn [bind]. eqb_reduce. rewrite vread_ok by assumption. reflexivity. Qed.
+Lemma entry_step_3 v : v < two64 -> entry_step l e (vfield tg_Entry_Index v ++ rest) = Ok (set_e_index v e, rest).
+Proof. intro. unfold entry_step, vfield. cbn [app]. tag_reduce. cbn [bind]. eqb_reduce. rewrite vread_ok by assumption. reflexivity. Qed.
 Lemma entry_step_4 d : l < two63 -> len (d ++ rest) <= l ->
-  entry_step l e (bfield 34 d ++ rest) = Ok (set_e_data (Some d) e, rest).
+  entry_step l e (bfield tg_Entry_Data d ++ rest) = Ok (set_e_data (Some d) e, rest).
 Proof.
-  intros. unfold entry_step, bfield. cbn [app]. tag_reduce. cbn [bind].
+  intros. unfold entry_step, bfield. cbn [app]. tag_reduce. cbn [bind]. eqb_reduce.
   rewrite <- app_assoc. rewrite bread_ok by assumption. reflexivity.
 Qed.
-Lemma entry_step_5 v : v < two64 -> entry_step l e (vfield 40 v ++ rest) = Ok (set_e_id v e, rest).
-Proof. intro. unfold entry_step, vfield. cbn [app]. tag_reduce. cbn [bind]. rewrite vread_ok by assumption. reflexivity. Qed.
-Lemma entry_step_6 v : v < two64 -> entry_step l e (vfield 48 v ++ rest) = Ok (set_e_dtype (low32 v) e, rest).
-Proof. intro. unfold entry_step, vfield. cbn [app]. tag_reduce. cbn [bind]. rewrite vread_ok by assumption. reflexivity. Qed.
-Lemma entry_step_7 v : v < two64 -> entry_step l e (vfield 56 v ++ rest) = Ok (set_e_ts v e, rest).
-Proof. intro. unfold entry_step, vfield. cbn [app]. tag_reduce. cbn [bind]. rewrite vread_ok by assumption. reflexivity. Qed.
+Lemma entry_step_5 v : v < two64 -> entry_step l e (vfield tg_Entry_ID v ++ rest) = Ok (set_e_id v e, rest).
+Proof. intro. unfold entry_step, vfield. cbn [app]. tag_reduce. cbn [bind]. eqb_reduce. rewrite vread_ok by assumption. reflexivity. Qed.
+Lemma entry_step_6 v : v < two64 -> entry_step l e (vfield tg_Entry_DataType v ++ rest) = Ok (set_e_dtype (low32 v) e, rest).
+Proof. intro. unfold entry_step, vfield. cbn [app]. tag_reduce. cbn [bind]. eqb_reduce. rewrite vread_ok by assumption. reflexivity. Qed.
+Lemma entry_step_7 v : v < two64 -> entry_step l e (vfield tg_Entry_Timestamp v ++ rest) = Ok (set_e_ts v e, rest).
+Proof. intro. unfold entry_step, vfield. cbn [app]. tag_reduce. cbn [bind]. eqb_reduce. rewrite vread_ok by assumption. reflexivity. Qed.
 End EntrySteps.
 
 (* ---------- Size() is the length of MarshalTo() ---------- *)
@@ -295,18 +307,18 @@ Qed.
 (* ---------- Group ---------- *)
 Section GroupSteps.
 Variables (l : N) (g : group) (rest : bytes).
-Lemma group_step_1 v : v < two64 -> group_step l g (vfield 8 v ++ rest) = Ok (set_g_node v g, rest).
-Proof. intro. unfold group_step, vfield. cbn [app]. tag_reduce. cbn [bind]. rewrite vread_ok by assumption. reflexivity. Qed.
+Lemma group_step_1 v : v < two64 -> group_step l g (vfield tg_Group_NodeId v ++ rest) = Ok (set_g_node v g, rest).
+Proof. intro. unfold group_step, vfield. cbn [app]. tag_reduce. cbn [bind]. eqb_reduce. rewrite vread_ok by assumption. reflexivity. Qed.
 Lemma group_step_2 d : l < two63 -> len (d ++ rest) <= l ->
-  group_step l g (bfield 18 d ++ rest) = Ok (set_g_name d g, rest).
+  group_step l g (bfield tg_Group_Name d ++ rest) = Ok (set_g_name d g, rest).
 Proof.
-  intros. unfold group_step, bfield. cbn [app]. tag_reduce. cbn [bind].
+  intros. unfold group_step, bfield. cbn [app]. tag_reduce. cbn [bind]. eqb_reduce.
   rewrite <- app_assoc. rewrite bread_ok by assumption. reflexivity.
 Qed.
-Lemma group_step_3 v : v < two64 -> group_step l g (vfield 24 v ++ rest) = Ok (set_g_gid v g, rest).
-Proof. intro. unfold group_step, vfield. cbn [app]. tag_reduce. cbn [bind]. rewrite vread_ok by assumption. reflexivity. Qed.
-Lemma group_step_4 v : v < two64 -> group_step l g (vfield 32 v ++ rest) = Ok (set_g_rid v g, rest).
-Proof. intro. unfold group_step, vfield. cbn [app]. tag_reduce. cbn [bind]. rewrite vread_ok by assumption. reflexivity. Qed.
+Lemma group_step_3 v : v < two64 -> group_step l g (vfield tg_Group_GroupId v ++ rest) = Ok (set_g_gid v g, rest).
+Proof. intro. unfold group_step, vfield. cbn [app]. tag_reduce. cbn [bind]. eqb_reduce. rewrite vread_ok by assumption. reflexivity. Qed.
+Lemma group_step_4 v : v < two64 -> group_step l g (vfield tg_Group_RaftReplicaId v ++ rest) = Ok (set_g_rid v g, rest).
+Proof. intro. unfold group_step, vfield. cbn [app]. tag_reduce. cbn [bind]. eqb_reduce. rewrite vread_ok by assumption. reflexivity. Qed.
 End GroupSteps.
 
 Lemma group_size_ok g : len (group_marshal g) = group_size g.
@@ -337,34 +349,34 @@ Proof. unfold bfield. rewrite group_size_ok. reflexivity. Qed.
 (* ---------- ConfState ---------- *)
 Section ConfSteps.
 Variables (l : N) (c : confstate) (rest : bytes).
-Lemma conf_step_1 v : v < two64 -> conf_step l c (vfield 8 v ++ rest) = Ok (set_c_nodes (c_nodes c ++ [v]) c, rest).
+Lemma conf_step_1 v : v < two64 -> conf_step l c (vfield tg_ConfState_Nodes v ++ rest) = Ok (set_c_nodes (c_nodes c ++ [v]) c, rest).
 Proof.
-  intro. unfold conf_step, vfield. cbn [app]. tag_reduce. cbn [bind]. unfold nums_read.
+  intro. unfold conf_step, vfield. cbn [app]. tag_reduce. cbn [bind]. eqb_reduce. unfold nums_read.
   change (0 =? 0) with true. cbv iota. rewrite varint_rt by assumption. reflexivity.
 Qed.
-Lemma conf_step_3 v : v < two64 -> conf_step l c (vfield 24 v ++ rest) = Ok (set_c_learners (c_learners c ++ [v]) c, rest).
+Lemma conf_step_3 v : v < two64 -> conf_step l c (vfield tg_ConfState_Learners v ++ rest) = Ok (set_c_learners (c_learners c ++ [v]) c, rest).
 Proof.
-  intro. unfold conf_step, vfield. cbn [app]. tag_reduce. cbn [bind]. unfold nums_read.
+  intro. unfold conf_step, vfield. cbn [app]. tag_reduce. cbn [bind]. eqb_reduce. unfold nums_read.
   change (0 =? 0) with true. cbv iota. rewrite varint_rt by assumption. reflexivity.
 Qed.
 Lemma conf_step_2 g : group_ok g = true -> l < two63 -> len (group_marshal g ++ rest) <= l ->
-  conf_step l c (bfield 18 (group_marshal g) ++ rest) = Ok (set_c_groups (c_groups c ++ [g]) c, rest).
+  conf_step l c (bfield tg_ConfState_Groups (group_marshal g) ++ rest) = Ok (set_c_groups (c_groups c ++ [g]) c, rest).
 Proof.
-  intros Hg Hl Hr. unfold conf_step, bfield. cbn [app]. tag_reduce. cbn [bind].
+  intros Hg Hl Hr. unfold conf_step, bfield. cbn [app]. tag_reduce. cbn [bind]. eqb_reduce.
   rewrite <- app_assoc. rewrite bread_ok by assumption. cbn [bind].
   rewrite group_rt; [reflexivity|assumption|]. rewrite <- group_size_ok. rewrite len_app in Hr. lia.
 Qed.
 Lemma conf_step_4 g : group_ok g = true -> l < two63 -> len (group_marshal g ++ rest) <= l ->
-  conf_step l c (bfield 34 (group_marshal g) ++ rest) = Ok (set_c_lgroups (c_lgroups c ++ [g]) c, rest).
+  conf_step l c (bfield tg_ConfState_LearnerGroups (group_marshal g) ++ rest) = Ok (set_c_lgroups (c_lgroups c ++ [g]) c, rest).
 Proof.
-  intros Hg Hl Hr. unfold conf_step, bfield. cbn [app]. tag_reduce. cbn [bind].
+  intros Hg Hl Hr. unfold conf_step, bfield. cbn [app]. tag_reduce. cbn [bind]. eqb_reduce.
   rewrite <- app_assoc. rewrite bread_ok by assumption. cbn [bind].
   rewrite group_rt; [reflexivity|assumption|]. rewrite <- group_size_ok. rewrite len_app in Hr. lia.
 Qed.
 End ConfSteps.
 
 Lemma conf_nodes_loop : forall ns f l c rest, forallb u64 ns = true ->
-  fields_loop conf_step (length ns + f) l c (concat (map (vfield 8) ns) ++ rest) =
+  fields_loop conf_step (length ns + f) l c (concat (map (vfield tg_ConfState_Nodes) ns) ++ rest) =
   fields_loop conf_step f l (set_c_nodes (c_nodes c ++ ns) c) rest.
 Proof.
   induction ns as [|n ns IH]; intros f l c rest H.
@@ -374,7 +386,7 @@ Proof.
     vstep conf_step_1. rewrite IH by assumption. destruct c; cbn. rewrite <- app_assoc. reflexivity.
 Qed.
 Lemma conf_learners_loop : forall ns f l c rest, forallb u64 ns = true ->
-  fields_loop conf_step (length ns + f) l c (concat (map (vfield 24) ns) ++ rest) =
+  fields_loop conf_step (length ns + f) l c (concat (map (vfield tg_ConfState_Learners) ns) ++ rest) =
   fields_loop conf_step f l (set_c_learners (c_learners c ++ ns) c) rest.
 Proof.
   induction ns as [|n ns IH]; intros f l c rest H.
@@ -384,8 +396,8 @@ Proof.
     vstep conf_step_3. rewrite IH by assumption. destruct c; cbn. rewrite <- app_assoc. reflexivity.
 Qed.
 Lemma conf_groups_loop : forall gs f l c rest, forallb group_ok gs = true -> l < two63 ->
-  len (concat (map (fun g => bfield 18 (group_marshal g)) gs) ++ rest) <= l ->
-  fields_loop conf_step (length gs + f) l c (concat (map (fun g => bfield 18 (group_marshal g)) gs) ++ rest) =
+  len (concat (map (fun g => bfield tg_ConfState_Groups (group_marshal g)) gs) ++ rest) <= l ->
+  fields_loop conf_step (length gs + f) l c (concat (map (fun g => bfield tg_ConfState_Groups (group_marshal g)) gs) ++ rest) =
   fields_loop conf_step f l (set_c_groups (c_groups c ++ gs) c) rest.
 Proof.
   induction gs as [|g gs IH]; intros f l c rest H Hl Hr.
@@ -396,8 +408,8 @@ Proof.
     rewrite IH; [|assumption|assumption| len_tac]. destruct c; cbn. rewrite <- app_assoc. reflexivity.
 Qed.
 Lemma conf_lgroups_loop : forall gs f l c rest, forallb group_ok gs = true -> l < two63 ->
-  len (concat (map (fun g => bfield 34 (group_marshal g)) gs) ++ rest) <= l ->
-  fields_loop conf_step (length gs + f) l c (concat (map (fun g => bfield 34 (group_marshal g)) gs) ++ rest) =
+  len (concat (map (fun g => bfield tg_ConfState_LearnerGroups (group_marshal g)) gs) ++ rest) <= l ->
+  fields_loop conf_step (length gs + f) l c (concat (map (fun g => bfield tg_ConfState_LearnerGroups (group_marshal g)) gs) ++ rest) =
   fields_loop conf_step f l (set_c_lgroups (c_lgroups c ++ gs) c) rest.
 Proof.
   induction gs as [|g gs IH]; intros f l c rest H Hl Hr.
@@ -427,27 +439,27 @@ Lemma bfield_len1 t d : (1 <= length (bfield t d))%nat.
 Proof. unfold bfield. cbn [length]. lia. Qed.
 
 Lemma conf_marshal_eq c : conf_marshal c =
-  concat (map (vfield 8) (c_nodes c)) ++
-  concat (map (fun g => bfield 18 (group_marshal g)) (c_groups c)) ++
-  concat (map (vfield 24) (c_learners c)) ++
-  concat (map (fun g => bfield 34 (group_marshal g)) (c_lgroups c)).
+  concat (map (vfield tg_ConfState_Nodes) (c_nodes c)) ++
+  concat (map (fun g => bfield tg_ConfState_Groups (group_marshal g)) (c_groups c)) ++
+  concat (map (vfield tg_ConfState_Learners) (c_learners c)) ++
+  concat (map (fun g => bfield tg_ConfState_LearnerGroups (group_marshal g)) (c_lgroups c)).
 Proof.
   unfold conf_marshal.
-  rewrite (map_ext (fun g => 18 :: varint_enc (group_size g) ++ group_marshal g)
-                   (fun g => bfield 18 (group_marshal g))) by (intro; apply sub_group_eq).
-  rewrite (map_ext (fun g => 34 :: varint_enc (group_size g) ++ group_marshal g)
-                   (fun g => bfield 34 (group_marshal g))) by (intro; apply sub_group_eq).
+  rewrite (map_ext (fun g => tg_ConfState_Groups :: varint_enc (group_size g) ++ group_marshal g)
+                   (fun g => bfield tg_ConfState_Groups (group_marshal g))) by (intro; apply sub_group_eq).
+  rewrite (map_ext (fun g => tg_ConfState_LearnerGroups :: varint_enc (group_size g) ++ group_marshal g)
+                   (fun g => bfield tg_ConfState_LearnerGroups (group_marshal g))) by (intro; apply sub_group_eq).
   reflexivity.
 Qed.
 
 Lemma conf_size_ok c : len (conf_marshal c) = conf_size c.
 Proof.
   rewrite conf_marshal_eq. unfold conf_size. rewrite !len_app.
-  rewrite (len_concat_map (vfield 8) vfield_size) by (intro; apply len_vfield).
-  rewrite (len_concat_map (vfield 24) vfield_size) by (intro; apply len_vfield).
-  rewrite (len_concat_map (fun g => bfield 18 (group_marshal g)) (fun g => bfield_size (group_size g)))
+  rewrite (len_concat_map (vfield tg_ConfState_Nodes) vfield_size) by (intro; apply len_vfield).
+  rewrite (len_concat_map (vfield tg_ConfState_Learners) vfield_size) by (intro; apply len_vfield).
+  rewrite (len_concat_map (fun g => bfield tg_ConfState_Groups (group_marshal g)) (fun g => bfield_size (group_size g)))
     by (intro; rewrite len_bfield, group_size_ok; reflexivity).
-  rewrite (len_concat_map (fun g => bfield 34 (group_marshal g)) (fun g => bfield_size (group_size g)))
+  rewrite (len_concat_map (fun g => bfield tg_ConfState_LearnerGroups (group_marshal g)) (fun g => bfield_size (group_size g)))
     by (intro; rewrite len_bfield, group_size_ok; reflexivity).
   lia.
 Qed.
@@ -462,10 +474,10 @@ Proof.
             (length (c_nodes c) + (length (c_groups c) + (length (c_learners c) + (length (c_lgroups c) + k))))%nat).
   { exists (S (length (conf_marshal c)) - (length (c_nodes c) + (length (c_groups c) + (length (c_learners c) + length (c_lgroups c)))))%nat.
     rewrite conf_marshal_eq. rewrite !app_length.
-    pose proof (concat_map_length_ge (vfield 8) (c_nodes c) (vfield_len1 8)).
-    pose proof (concat_map_length_ge (vfield 24) (c_learners c) (vfield_len1 24)).
-    pose proof (concat_map_length_ge (fun g => bfield 18 (group_marshal g)) (c_groups c) (fun g => bfield_len1 18 _)).
-    pose proof (concat_map_length_ge (fun g => bfield 34 (group_marshal g)) (c_lgroups c) (fun g => bfield_len1 34 _)).
+    pose proof (concat_map_length_ge (vfield tg_ConfState_Nodes) (c_nodes c) (vfield_len1 tg_ConfState_Nodes)).
+    pose proof (concat_map_length_ge (vfield tg_ConfState_Learners) (c_learners c) (vfield_len1 tg_ConfState_Learners)).
+    pose proof (concat_map_length_ge (fun g => bfield tg_ConfState_Groups (group_marshal g)) (c_groups c) (fun g => bfield_len1 tg_ConfState_Groups _)).
+    pose proof (concat_map_length_ge (fun g => bfield tg_ConfState_LearnerGroups (group_marshal g)) (c_lgroups c) (fun g => bfield_len1 tg_ConfState_LearnerGroups _)).
     lia. }
   destruct Hfuel as [k ->].
   remember (len (conf_marshal c)) as l eqn:Hl.
@@ -485,22 +497,22 @@ Proof. unfold bfield. rewrite conf_size_ok. reflexivity. Qed.
 Section MetaSteps.
 Variables (l : N) (s : snapmeta) (rest : bytes).
 Lemma meta_step_1 c : sm_conf s = conf0 -> conf_ok c = true -> l < two63 -> len (conf_marshal c ++ rest) <= l ->
-  meta_step l s (bfield 10 (conf_marshal c) ++ rest) = Ok (set_sm_conf c s, rest).
+  meta_step l s (bfield tg_SnapshotMetadata_ConfState (conf_marshal c) ++ rest) = Ok (set_sm_conf c s, rest).
 Proof.
-  intros H0 Hc Hl Hr. unfold meta_step, bfield. cbn [app]. tag_reduce. cbn [bind].
+  intros H0 Hc Hl Hr. unfold meta_step, bfield. cbn [app]. tag_reduce. cbn [bind]. eqb_reduce.
   rewrite <- app_assoc. rewrite bread_ok by assumption. cbn [bind]. rewrite H0.
   rewrite conf_rt; [reflexivity|assumption|]. rewrite <- conf_size_ok. rewrite len_app in Hr. lia.
 Qed.
-Lemma meta_step_2 v : v < two64 -> meta_step l s (vfield 16 v ++ rest) = Ok (set_sm_index v s, rest).
-Proof. intro. unfold meta_step, vfield. cbn [app]. tag_reduce. cbn [bind]. rewrite vread_ok by assumption. reflexivity. Qed.
-Lemma meta_step_3 v : v < two64 -> meta_step l s (vfield 24 v ++ rest) = Ok (set_sm_term v s, rest).
-Proof. intro. unfold meta_step, vfield. cbn [app]. tag_reduce. cbn [bind]. rewrite vread_ok by assumption. reflexivity. Qed.
+Lemma meta_step_2 v : v < two64 -> meta_step l s (vfield tg_SnapshotMetadata_Index v ++ rest) = Ok (set_sm_index v s, rest).
+Proof. intro. unfold meta_step, vfield. cbn [app]. tag_reduce. cbn [bind]. eqb_reduce. rewrite vread_ok by assumption. reflexivity. Qed.
+Lemma meta_step_3 v : v < two64 -> meta_step l s (vfield tg_SnapshotMetadata_Term v ++ rest) = Ok (set_sm_term v s, rest).
+Proof. intro. unfold meta_step, vfield. cbn [app]. tag_reduce. cbn [bind]. eqb_reduce. rewrite vread_ok by assumption. reflexivity. Qed.
 End MetaSteps.
 
 Definition meta_ok (s : snapmeta) : bool := conf_ok (sm_conf s) && u64 (sm_index s) && u64 (sm_term s).
 
 Lemma meta_marshal_eq s : meta_marshal s =
-  bfield 10 (conf_marshal (sm_conf s)) ++ vfield 16 (sm_index s) ++ vfield 24 (sm_term s).
+  bfield tg_SnapshotMetadata_ConfState (conf_marshal (sm_conf s)) ++ vfield tg_SnapshotMetadata_Index (sm_index s) ++ vfield tg_SnapshotMetadata_Term (sm_term s).
 Proof. unfold meta_marshal. rewrite <- sub_conf_eq. cbn [app]. rewrite <- app_assoc. reflexivity. Qed.
 
 Lemma meta_size_ok s : len (meta_marshal s) = meta_size s.
@@ -535,21 +547,21 @@ Proof. unfold bfield. rewrite meta_size_ok. reflexivity. Qed.
 Section SnapSteps.
 Variables (l : N) (s : snapshot) (rest : bytes).
 Lemma snap_step_1 d : l < two63 -> len (d ++ rest) <= l ->
-  snap_step l s (bfield 10 d ++ rest) = Ok (set_s_data (Some d) s, rest).
+  snap_step l s (bfield tg_Snapshot_Data d ++ rest) = Ok (set_s_data (Some d) s, rest).
 Proof.
-  intros. unfold snap_step, bfield. cbn [app]. tag_reduce. cbn [bind].
+  intros. unfold snap_step, bfield. cbn [app]. tag_reduce. cbn [bind]. eqb_reduce.
   rewrite <- app_assoc. rewrite bread_ok by assumption. reflexivity.
 Qed.
 Lemma snap_step_2 md : s_meta s = meta0 -> meta_ok md = true -> l < two63 -> len (meta_marshal md ++ rest) <= l ->
-  snap_step l s (bfield 18 (meta_marshal md) ++ rest) = Ok (set_s_meta md s, rest).
+  snap_step l s (bfield tg_Snapshot_Metadata (meta_marshal md) ++ rest) = Ok (set_s_meta md s, rest).
 Proof.
-  intros H0 Hc Hl Hr. unfold snap_step, bfield. cbn [app]. tag_reduce. cbn [bind].
+  intros H0 Hc Hl Hr. unfold snap_step, bfield. cbn [app]. tag_reduce. cbn [bind]. eqb_reduce.
   rewrite <- app_assoc. rewrite bread_ok by assumption. cbn [bind]. rewrite H0.
   rewrite meta_rt; [reflexivity|assumption|]. rewrite <- meta_size_ok. rewrite len_app in Hr. lia.
 Qed.
 End SnapSteps.
 
-Lemma snap_marshal_eq s : snap_marshal s = obfield 10 (s_data s) ++ bfield 18 (meta_marshal (s_meta s)).
+Lemma snap_marshal_eq s : snap_marshal s = obfield tg_Snapshot_Data (s_data s) ++ bfield tg_Snapshot_Metadata (meta_marshal (s_meta s)).
 Proof. unfold snap_marshal. rewrite <- sub_meta_eq. reflexivity. Qed.
 
 Lemma snap_size_ok s : len (snap_marshal s) = snap_size s.
@@ -590,64 +602,64 @@ Proof. unfold bfield. rewrite entry_size_ok. reflexivity. Qed.
 Section MsgSteps.
 Variables (l : N) (m : message) (rest : bytes).
 Ltac vs := intro; unfold msg_step, vfield; cbn [app]; tag_reduce; cbn [bind]; rewrite vread_ok by assumption; reflexivity.
-Lemma msg_step_1 v : v < two64 -> msg_step l m (vfield 8 v ++ rest) = Ok (set_m_type (low32 v) m, rest).
+Lemma msg_step_1 v : v < two64 -> msg_step l m (vfield tg_Message_Type v ++ rest) = Ok (set_m_type (low32 v) m, rest).
 Proof. vs. Qed.
-Lemma msg_step_2 v : v < two64 -> msg_step l m (vfield 16 v ++ rest) = Ok (set_m_to v m, rest).
+Lemma msg_step_2 v : v < two64 -> msg_step l m (vfield tg_Message_To v ++ rest) = Ok (set_m_to v m, rest).
 Proof. vs. Qed.
-Lemma msg_step_3 v : v < two64 -> msg_step l m (vfield 24 v ++ rest) = Ok (set_m_from v m, rest).
+Lemma msg_step_3 v : v < two64 -> msg_step l m (vfield tg_Message_From v ++ rest) = Ok (set_m_from v m, rest).
 Proof. vs. Qed.
-Lemma msg_step_4 v : v < two64 -> msg_step l m (vfield 32 v ++ rest) = Ok (set_m_term v m, rest).
+Lemma msg_step_4 v : v < two64 -> msg_step l m (vfield tg_Message_Term v ++ rest) = Ok (set_m_term v m, rest).
 Proof. vs. Qed.
-Lemma msg_step_5 v : v < two64 -> msg_step l m (vfield 40 v ++ rest) = Ok (set_m_logterm v m, rest).
+Lemma msg_step_5 v : v < two64 -> msg_step l m (vfield tg_Message_LogTerm v ++ rest) = Ok (set_m_logterm v m, rest).
 Proof. vs. Qed.
-Lemma msg_step_6 v : v < two64 -> msg_step l m (vfield 48 v ++ rest) = Ok (set_m_index v m, rest).
+Lemma msg_step_6 v : v < two64 -> msg_step l m (vfield tg_Message_Index v ++ rest) = Ok (set_m_index v m, rest).
 Proof. vs. Qed.
-Lemma msg_step_8 v : v < two64 -> msg_step l m (vfield 64 v ++ rest) = Ok (set_m_commit v m, rest).
+Lemma msg_step_8 v : v < two64 -> msg_step l m (vfield tg_Message_Commit v ++ rest) = Ok (set_m_commit v m, rest).
 Proof. vs. Qed.
-Lemma msg_step_10 v : v < two64 -> msg_step l m (vfield 80 v ++ rest) = Ok (set_m_reject (negb (v =? 0)) m, rest).
+Lemma msg_step_10 v : v < two64 -> msg_step l m (vfield tg_Message_Reject v ++ rest) = Ok (set_m_reject (negb (v =? 0)) m, rest).
 Proof. vs. Qed.
-Lemma msg_step_11 v : v < two64 -> msg_step l m (vfield 88 v ++ rest) = Ok (set_m_rhint v m, rest).
+Lemma msg_step_11 v : v < two64 -> msg_step l m (vfield tg_Message_RejectHint v ++ rest) = Ok (set_m_rhint v m, rest).
 Proof. vs. Qed.
 Lemma msg_step_7 e : entry_ok e = true -> l < two63 -> len (entry_marshal e ++ rest) <= l ->
-  msg_step l m (bfield 58 (entry_marshal e) ++ rest) = Ok (set_m_entries (m_entries m ++ [e]) m, rest).
+  msg_step l m (bfield tg_Message_Entries (entry_marshal e) ++ rest) = Ok (set_m_entries (m_entries m ++ [e]) m, rest).
 Proof.
-  intros He Hl Hr. unfold msg_step, bfield. cbn [app]. tag_reduce. cbn [bind].
+  intros He Hl Hr. unfold msg_step, bfield. cbn [app]. tag_reduce. cbn [bind]. eqb_reduce.
   rewrite <- app_assoc. rewrite bread_ok by assumption. cbn [bind].
   fold (entry_unmarshal (entry_marshal e)).
   rewrite entry_rt; [reflexivity|assumption|]. rewrite <- entry_size_ok. rewrite len_app in Hr. lia.
 Qed.
 Lemma msg_step_9 s : m_snap m = snap0 -> snap_ok s = true -> l < two63 -> len (snap_marshal s ++ rest) <= l ->
-  msg_step l m (bfield 74 (snap_marshal s) ++ rest) = Ok (set_m_snap s m, rest).
+  msg_step l m (bfield tg_Message_Snapshot (snap_marshal s) ++ rest) = Ok (set_m_snap s m, rest).
 Proof.
-  intros H0 Hs Hl Hr. unfold msg_step, bfield. cbn [app]. tag_reduce. cbn [bind].
+  intros H0 Hs Hl Hr. unfold msg_step, bfield. cbn [app]. tag_reduce. cbn [bind]. eqb_reduce.
   rewrite <- app_assoc. rewrite bread_ok by assumption. cbn [bind]. rewrite H0.
   rewrite snap_rt; [reflexivity|assumption|]. rewrite <- snap_size_ok. rewrite len_app in Hr. lia.
 Qed.
 Lemma msg_step_12 d : l < two63 -> len (d ++ rest) <= l ->
-  msg_step l m (bfield 98 d ++ rest) = Ok (set_m_ctx (Some d) m, rest).
+  msg_step l m (bfield tg_Message_Context d ++ rest) = Ok (set_m_ctx (Some d) m, rest).
 Proof.
-  intros. unfold msg_step, bfield. cbn [app]. tag_reduce. cbn [bind].
+  intros. unfold msg_step, bfield. cbn [app]. tag_reduce. cbn [bind]. eqb_reduce.
   rewrite <- app_assoc. rewrite bread_ok by assumption. reflexivity.
 Qed.
 Lemma msg_step_13 g : group_ok g = true -> l < two63 -> len (group_marshal g ++ rest) <= l ->
-  msg_step l m (bfield 106 (group_marshal g) ++ rest) = Ok (set_m_fromg g m, rest).
+  msg_step l m (bfield tg_Message_FromGroup (group_marshal g) ++ rest) = Ok (set_m_fromg g m, rest).
 Proof.
-  intros Hg Hl Hr. unfold msg_step, bfield. cbn [app]. tag_reduce. cbn [bind].
+  intros Hg Hl Hr. unfold msg_step, bfield. cbn [app]. tag_reduce. cbn [bind]. eqb_reduce.
   rewrite <- app_assoc. rewrite bread_ok by assumption. cbn [bind].
   rewrite group_rt; [reflexivity|assumption|]. rewrite <- group_size_ok. rewrite len_app in Hr. lia.
 Qed.
 Lemma msg_step_14 g : group_ok g = true -> l < two63 -> len (group_marshal g ++ rest) <= l ->
-  msg_step l m (bfield 114 (group_marshal g) ++ rest) = Ok (set_m_tog g m, rest).
+  msg_step l m (bfield tg_Message_ToGroup (group_marshal g) ++ rest) = Ok (set_m_tog g m, rest).
 Proof.
-  intros Hg Hl Hr. unfold msg_step, bfield. cbn [app]. tag_reduce. cbn [bind].
+  intros Hg Hl Hr. unfold msg_step, bfield. cbn [app]. tag_reduce. cbn [bind]. eqb_reduce.
   rewrite <- app_assoc. rewrite bread_ok by assumption. cbn [bind].
   rewrite group_rt; [reflexivity|assumption|]. rewrite <- group_size_ok. rewrite len_app in Hr. lia.
 Qed.
 End MsgSteps.
 
 Lemma msg_entries_loop : forall es f l m rest, forallb entry_ok es = true -> l < two63 ->
-  len (concat (map (fun e => bfield 58 (entry_marshal e)) es) ++ rest) <= l ->
-  fields_loop msg_step (length es + f) l m (concat (map (fun e => bfield 58 (entry_marshal e)) es) ++ rest) =
+  len (concat (map (fun e => bfield tg_Message_Entries (entry_marshal e)) es) ++ rest) <= l ->
+  fields_loop msg_step (length es + f) l m (concat (map (fun e => bfield tg_Message_Entries (entry_marshal e)) es) ++ rest) =
   fields_loop msg_step f l (set_m_entries (m_entries m ++ es) m) rest.
 Proof.
   induction es as [|e es IH]; intros f l m rest H Hl Hr.
@@ -661,18 +673,18 @@ Qed.
 Definition reject_n (b : bool) : N := if b then 1 else 0.
 
 Lemma msg_marshal_eq m : msg_marshal m =
-  vfield 8 (sext32 (m_type m)) ++ vfield 16 (m_to m) ++ vfield 24 (m_from m) ++ vfield 32 (m_term m) ++
-  vfield 40 (m_logterm m) ++ vfield 48 (m_index m) ++
-  concat (map (fun e => bfield 58 (entry_marshal e)) (m_entries m)) ++
-  vfield 64 (m_commit m) ++ bfield 74 (snap_marshal (m_snap m)) ++ vfield 80 (reject_n (m_reject m)) ++
-  vfield 88 (m_rhint m) ++ obfield 98 (m_ctx m) ++
-  bfield 106 (group_marshal (m_fromg m)) ++ bfield 114 (group_marshal (m_tog m)).
+  vfield tg_Message_Type (sext32 (m_type m)) ++ vfield tg_Message_To (m_to m) ++ vfield tg_Message_From (m_from m) ++ vfield tg_Message_Term (m_term m) ++
+  vfield tg_Message_LogTerm (m_logterm m) ++ vfield tg_Message_Index (m_index m) ++
+  concat (map (fun e => bfield tg_Message_Entries (entry_marshal e)) (m_entries m)) ++
+  vfield tg_Message_Commit (m_commit m) ++ bfield tg_Message_Snapshot (snap_marshal (m_snap m)) ++ vfield tg_Message_Reject (reject_n (m_reject m)) ++
+  vfield tg_Message_RejectHint (m_rhint m) ++ obfield tg_Message_Context (m_ctx m) ++
+  bfield tg_Message_FromGroup (group_marshal (m_fromg m)) ++ bfield tg_Message_ToGroup (group_marshal (m_tog m)).
 Proof.
   unfold msg_marshal.
-  rewrite (map_ext (fun e => 58 :: varint_enc (entry_size e) ++ entry_marshal e)
-                   (fun e => bfield 58 (entry_marshal e))) by (intro; apply sub_entry_eq).
+  rewrite (map_ext (fun e => tg_Message_Entries :: varint_enc (entry_size e) ++ entry_marshal e)
+                   (fun e => bfield tg_Message_Entries (entry_marshal e))) by (intro; apply sub_entry_eq).
   rewrite sub_snap_eq, !sub_group_eq.
-  replace [80; if m_reject m then 1 else 0] with (vfield 80 (reject_n (m_reject m)))
+  replace [tg_Message_Reject; if m_reject m then 1 else 0] with (vfield tg_Message_Reject (reject_n (m_reject m)))
     by (destruct (m_reject m); reflexivity).
   reflexivity.
 Qed.
@@ -680,7 +692,7 @@ Qed.
 Lemma msg_size_ok m : len (msg_marshal m) = msg_size m.
 Proof.
   rewrite msg_marshal_eq. unfold msg_size. rewrite !len_app, !len_vfield, !len_bfield, len_obfield.
-  rewrite (len_concat_map (fun e => bfield 58 (entry_marshal e)) (fun e => bfield_size (entry_size e)))
+  rewrite (len_concat_map (fun e => bfield tg_Message_Entries (entry_marshal e)) (fun e => bfield_size (entry_size e)))
     by (intro; rewrite len_bfield, entry_size_ok; reflexivity).
   rewrite snap_size_ok, !group_size_ok.
   replace (vfield_size (reject_n (m_reject m))) with 2 by (destruct (m_reject m); reflexivity).
@@ -696,7 +708,7 @@ Proof.
   assert (Hfuel : exists k, S (length (msg_marshal m)) = (6 + (length (m_entries m) + (7 + k)))%nat).
   { exists (S (length (msg_marshal m)) - (6 + (length (m_entries m) + 7)))%nat.
     rewrite msg_marshal_eq.
-    pose proof (concat_map_length_ge (fun e => bfield 58 (entry_marshal e)) (m_entries m) (fun e => bfield_len1 58 _)).
+    pose proof (concat_map_length_ge (fun e => bfield tg_Message_Entries (entry_marshal e)) (m_entries m) (fun e => bfield_len1 tg_Message_Entries _)).
     unfold vfield, bfield. repeat (rewrite ?app_length; cbn [length]). unfold bfield in H. lia. }
   destruct Hfuel as [k ->].
   remember (len (msg_marshal m)) as l eqn:Hl.
